@@ -35,6 +35,8 @@ type Aggregate struct {
 	// about to be re-queued) which have not finished yet. As long as there are
 	// any, an empty NextLinesCh does not mean that there is no more input.
 	pending int32
+	// Number of inputs announced so far (never decreases).
+	announced int32
 }
 
 // NewAggregate return a new server side aggregator.
@@ -88,6 +90,7 @@ func NewAggregate(queryStr string) (*Aggregate, error) {
 // has waited for a free read slot. Every Expect must be followed by a Done.
 func (a *Aggregate) Expect() {
 	atomic.AddInt32(&a.pending, 1)
+	atomic.AddInt32(&a.announced, 1)
 }
 
 // Done tells that an input announced via Expect has finished, all the lines
@@ -183,11 +186,27 @@ func (a *Aggregate) fieldsFromLines(ctx context.Context) <-chan map[string]strin
 	go func() {
 		defer close(fieldsCh)
 
-		// Gather first lines channel (first input file)
-		select {
-		case a.linesCh = <-a.NextLinesCh:
-		case <-ctx.Done():
-			return
+		// Gather first lines channel (first input file). There will be none if
+		// all the read commands of the session are done without having had any
+		// file to read (no such file, no permission).
+		for a.linesCh == nil {
+			pending := atomic.LoadInt32(&a.pending)
+			announced := atomic.LoadInt32(&a.announced)
+			select {
+			case a.linesCh = <-a.NextLinesCh:
+			case <-ctx.Done():
+				return
+			case <-time.After(time.Millisecond * 100):
+				if announced == 0 || pending > 0 {
+					continue
+				}
+				select {
+				case a.linesCh = <-a.NextLinesCh:
+				default:
+					vhook.Point("mapr.agg.nomore", vhook.ID(a))
+					return
+				}
+			}
 		}
 
 		for {
